@@ -1,4 +1,5 @@
-SPECIFICATION Spec
+INIT SimInit
+NEXT SimNext
 CONSTANTS
   NInc = 2
   MaxNotify = 1
@@ -6,8 +7,8 @@ CONSTANTS
   WindowFix = TRUE
   GuardFix = TRUE
   CleanupFix = FALSE
-  SerialReg = TRUE
-  MaxBatch = 0
+  SerialReg = FALSE
+  MaxBatch = 2
   RetryEnds = TRUE
-INVARIANTS AllGone NoCrash NewestSender
+  Depth = 36
 CHECK_DEADLOCK FALSE
